@@ -469,6 +469,24 @@ def run(ctx):
                        regular=len(set(dict(G.degree()).values())) == 1,
                        depleting=(gamma == 0 or tau / gamma >= 10))
             ctx.count("%s:%s" % (name.replace("_from_graph", ""), style))
+            # the initial sets as the caller may hand them over: list, tuple, set, NumPy array of labels (a sampled index
+            # array is the usual way of picking them), a dict-keys view — "an iterable of nodes" in every docstring
+            for key in ("initial_infecteds", "initial_recovereds"):
+                if isinstance(kw.get(key), list) and ctx.rng.random() < 0.45:
+                    kind_ = ctx.rng.choice(["array", "array", "tuple", "set", "dictkeys"])
+                    vals = kw[key]
+                    if kind_ == "array" and all(isinstance(u, int) for u in vals):
+                        kw[key] = np.array(vals)
+                    elif kind_ == "tuple":
+                        kw[key] = tuple(vals)
+                    elif kind_ == "set":
+                        kw[key] = set(vals)
+                    elif kind_ == "dictkeys":
+                        kw[key] = dict.fromkeys(vals).keys()
+                    else:
+                        kind_ = "list"
+                    rep.setdefault("containers", {})[key] = kind_
+                    ctx.count("container:%s" % kind_)
             # node-level entry points: an explicit nodelist (a permutation of the nodes) together with rho / the default is a
             # consistent initial condition too (fixed in /repo 19d1024: the pair-based solvers crashed on it)
             nl = None
